@@ -42,6 +42,16 @@ _BROADCAST_BINARY_OPS: tuple[str, ...] = (
 )
 
 
+def _is_unknown_dim(d) -> bool:
+    """An unnamed dim (``SymbolicDim(None)``): two of them compare equal but need not be equal."""
+    return isinstance(d, ir.SymbolicDim) and d.value is None
+
+
+def _same_dim(d1, d2) -> bool:
+    """``d1 == d2`` as a fact about run-time values: unnamed dims are never known to be equal."""
+    return not _is_unknown_dim(d1) and not _is_unknown_dim(d2) and d1 == d2
+
+
 def _compute_broadcast_dim(d1, d2):
     """Return the numpy broadcast of two dimension values.
 
@@ -53,7 +63,7 @@ def _compute_broadcast_dim(d1, d2):
         return d2
     if d2 == 1:
         return d1
-    if d1 == d2:
+    if _same_dim(d1, d2):
         return d1
     return None
 
@@ -118,12 +128,12 @@ def _check_dims_sufficient(
 
         x_idx = x_rank - 1 - rev_i
         x_d = x_shape[x_idx] if x_idx >= 0 else 1
-        if x_d == e_d:
+        if _same_dim(x_d, e_d):
             continue  # expand is a no-op at this dimension
 
         y_idx = y_rank - 1 - rev_i
         y_d = y_shape[y_idx] if y_idx >= 0 else 1
-        if y_d == e_d:
+        if _same_dim(y_d, e_d):
             continue  # y already supplies this dimension
 
         return check_result.fail(
@@ -234,7 +244,7 @@ def _check_expand_removable(
         if op_output_shape.rank() is not None:
             computed = _compute_broadcast_shape(x_shape, y_shape)
             if computed is not None and len(computed) == op_output_shape.rank():
-                if all(c == a for c, a in zip(computed, op_output_shape)):
+                if all(_same_dim(c, a) for c, a in zip(computed, op_output_shape)):
                     return check_result
         return check_result.fail(
             "broadcast(x.shape, y.shape) does not match the binary op output shape."
